@@ -24,6 +24,7 @@ type SMPRun struct {
 	Traffic []int  `json:"t,omitempty"` // ping-pong rounds before start / before answer / before message 3 is delivered
 	Len     int    `json:"len,omitempty"`
 	Restart int    `json:"restart,omitempty"` // 1: the initiator starts again before the answer; 2: the responder starts its own run instead of answering
+	Abandon bool   `json:"abandon,omitempty"` // before this run: a request is left unanswered, the session is ended by both and a new one keyed
 }
 
 // C11Script is a sequence of runs in one session.
@@ -50,7 +51,13 @@ func secretOf(base, class, n int) []byte {
 		b = []byte("päss\x00wörd\xff\xfe")
 	}
 	b = append([]byte{}, b...)
-	switch class % 6 {
+	switch class % 9 {
+	case 6:
+		b = append(b, '\n') // as pasted from a terminal
+	case 7:
+		b = append(b, '\r', '\n')
+	case 8:
+		b = append(b, '\r')
 	case 0:
 	case 1:
 		if len(b) > 0 {
@@ -117,6 +124,21 @@ func runC11(sc *C11Script) *sim.Outcome {
 		equal := bytes.Equal(secA, secB)
 		tr := append(append([]int{}, run.Traffic...), 0, 0, 0)
 		traffic(tr[0] % 3)
+		if run.Abandon {
+			// an SMP request that the user never answers, then the session ends and a new one is keyed
+			w.SMPStart(a, "", []byte("never answered"))
+			s.Exec(SOp{K: "flush"})
+			w.End(a)
+			s.Exec(SOp{K: "flush"})
+			w.End(b)
+			w.Q[0], w.Q[1] = nil, nil
+			s.Exec(SOp{K: "sess", W: b})
+			if !w.P[0].C.IsEncrypted() || !w.P[1].C.IsEncrypted() {
+				o.Discard = true
+				return o
+			}
+			o.Class("unanswered-request-then-new-session")
+		}
 		na, nb := len(w.P[a].SMP), len(w.P[b].SMP)
 		s.asked = [2]bool{}
 		c := w.SMPStart(a, run.Q, secA)
@@ -197,7 +219,7 @@ func runC11(sc *C11Script) *sim.Outcome {
 			if !fa && !aa {
 				return o.Fail("C11/mismatch-unreported", "different secrets: the initiator saw neither failure nor abort; %s", desc)
 			}
-			o.Class(fmt.Sprintf("differ-class%d-%d", run.SecA%6, run.SecB%6))
+			o.Class(fmt.Sprintf("differ-class%d-%d", run.SecA%9, run.SecB%9))
 		}
 		if run.Q != "" {
 			o.Class("question")
@@ -314,15 +336,16 @@ func init() { reg("C11session", runC11); reg("C11relay", runC11Relay) }
 
 func genSMPRun(rt *rapid.T) SMPRun {
 	r := SMPRun{Init: rapid.IntRange(0, 1).Draw(rt, "init"), Base: rapid.IntRange(0, 4).Draw(rt, "base")}
-	r.SecA = rapid.IntRange(0, 5).Draw(rt, "sa")
+	r.SecA = rapid.IntRange(0, 8).Draw(rt, "sa")
 	if rapid.IntRange(0, 1).Draw(rt, "eq") == 0 {
 		r.SecB = r.SecA
 	} else {
-		r.SecB = rapid.IntRange(0, 5).Draw(rt, "sb")
+		r.SecB = rapid.IntRange(0, 8).Draw(rt, "sb")
 	}
 	r.Q = rapid.SampledFrom([]string{"", "", "what is the word?", "ünïcödé ?", "q\twith\ttabs"}).Draw(rt, "q")
 	r.Traffic = []int{rapid.IntRange(0, 2).Draw(rt, "t0"), rapid.IntRange(0, 2).Draw(rt, "t1"), rapid.IntRange(0, 2).Draw(rt, "t2")}
 	r.Len = rapid.IntRange(0, 65000).Draw(rt, "len")
+	r.Abandon = rapid.IntRange(0, 5).Draw(rt, "abandon") == 0
 	if rapid.IntRange(0, 2).Draw(rt, "dorestart") == 0 {
 		r.Restart = rapid.IntRange(1, 2).Draw(rt, "restart")
 	}
